@@ -187,6 +187,14 @@ def op_vr(self, a, targets):
         self.probe("vr_result_malformed:" + kind)
         return {"status": "malformed-result"}
     shape = _result_shape(r, 6)
+
+    def _big(x):
+        return any(_big(y) for y in x) if isinstance(x, (list, tuple)) else (isinstance(x, int) and x > 600)
+    if _big(shape):
+        # repeated linear flattening multiplies shapes (7x8x8 -> 448 -> 3072 ...); every dense walk of such a tensor
+        # takes seconds and a run of 90 events no longer fits its watchdog. Such results do not join the world.
+        self.probe("vr_result_too_large:" + kind)
+        return {"status": "result-too-large"}
     try:
         default = Payload.get(r.getDefault())
     except Exception:
